@@ -376,9 +376,11 @@ def prepare(template, data):
 SPEC_KINDS = {
     "d": "%d", "s": "%s", "c": "%c", "r": "%r", "pct": "%%", "stard": "%*d", "pstarf": "%.*f", "5d": "%5d",
     "dstar": "%*.*f",
+    "x": "%x", "o": "%#o", "e": "%e", "g": "%-8.3g", "i": "%+i",
 }
 NEEDS = {"d": ["num"], "s": ["any"], "c": ["chr"], "r": ["any"], "pct": [], "stard": ["int", "num"],
-         "pstarf": ["int", "num"], "5d": ["num"], "dstar": ["int", "int", "num"]}
+         "pstarf": ["int", "num"], "5d": ["num"], "dstar": ["int", "int", "num"],
+         "x": ["int"], "o": ["int"], "e": ["num"], "g": ["num"], "i": ["num"]}
 ARG_KINDS = ["int", "str", "none", "float"]
 # bytes templates: %s / %b take bytes-like objects only, %c an int in range(256) or a length-1 bytes
 BYTES_SPEC_KINDS = {"d": b"%d", "s": b"%s", "c": b"%c", "b": b"%b", "a": b"%a", "stard": b"%*d"}
